@@ -221,3 +221,29 @@ Definition read_through (U : list key) (s : server) (now : Z) (down : bool) (k :
   end.
 Theorem read_through_survives_down U s now k ttl f : read_through U s now true k ttl f = (s, f).
 Proof. reflexivity. Qed.
+
+(* ---- is_locked(wait, step): on a server nobody writes to, a key that is gone stays gone, so the waiting form answers what
+   `exists` answers at the instant it returns - which is how the histories of Run/C19.v carry it (CExists at the return instant) *)
+Lemma b_exists_present U s now k : b_exists U s now k = present s now k.
+Proof. unfold b_exists, present. cbn. unfold c_exists. destruct (isSome (look s now k)); reflexivity. Qed.
+Lemma gone_stays_gone s now now' k : now <= now' -> present s now k = false -> present s now' k = false.
+Proof.
+  unfold present, look. intros Hle. destruct (s k) as [[v [d|]]|]; cbn; try (intro; assumption).
+  destruct (Z.leb_spec d now); cbn; [|discriminate]. intros _. destruct (Z.leb_spec d now'); [reflexivity|lia].
+Qed.
+Definition rounds (w st : Z) : Z := Z.max 0 ((w + st - 1) / st).
+Theorem b_is_locked_spec U s k st fuel : forall now w b, 0 < st ->
+  b_is_locked fuel U s now k w st = Some b -> b = present s (now + rounds w st * st) k.
+Proof.
+  induction fuel as [|f IH]; intros now w b Hs H; cbn [b_is_locked] in H; [discriminate|].
+  rewrite b_exists_present in H. unfold rounds. destruct (Z.ltb_spec 0 w) as [Hw|Hw].
+  - assert (Hq : (w + st - 1) / st = (w - st + st - 1) / st + 1).
+    { replace (w + st - 1) with ((w - st + st - 1) + 1 * st) by ring. apply Z.div_add. lia. }
+    assert (Hq0 : 0 <= (w - st + st - 1) / st) by (apply Z.div_pos; lia).
+    destruct (present s now k) eqn:L.
+    + apply IH in H; [|exact Hs]. rewrite H. unfold rounds. f_equal. rewrite Hq. lia.
+    + injection H as <-. symmetry. apply (gone_stays_gone s now); [|exact L].
+      assert (0 <= Z.max 0 ((w + st - 1) / st) * st) by (apply Z.mul_nonneg_nonneg; lia). lia.
+  - injection H as <-. assert ((w + st - 1) / st < 1) by (apply Z.div_lt_upper_bound; lia).
+    replace (Z.max 0 ((w + st - 1) / st)) with 0 by lia. f_equal. lia.
+Qed.
